@@ -727,7 +727,7 @@ fn run_c16(ctx: &mut Ctx) {
         // fault-free
         let reqs = std::cell::Cell::new(0usize);
         let calls = std::cell::Cell::new(0u64);
-        {
+        if ctx.prerun(&format!("C16;{d}"), &format!("C16;{d};fault=none")) {
             let o = f(Fault::None);
             reqs.set(o.window_requests);
             calls.set(o.calls);
